@@ -212,7 +212,8 @@ theorem warp_shift_large_2d {β : Type} (zero : β) (rnd : Rounding) (mode : Mod
   rw [warp_shift_2d zero rnd mode cs h0 h1 k0 k1 arr v0 v1 hv0 hv1 hr, shift2, if_neg]
   omega
 
-/-- DEFECT of the point constructors (utils/point.py, `astype(int)`), as a theorem about the faithful model:
+/-- DEFECT of the point constructors before the point fix (utils/point.py, `astype(int)`), as a theorem about the
+truncating model:
 in voxel-centre mode with truncation the shift by (1, 2) on a 5 × 6 image replicates the border voxel
 (destination voxel (0,0) pulls back to source voxel (0,0) instead of the invalid (−1,−2)). -/
 theorem shift_center_trunc_fails :
@@ -312,6 +313,26 @@ every probe (negative and positive halves, quarters and integers). -/
 theorem point_rounding_tabulated :
     ∀ p ∈ Gen.pointProbes, Gen.pointRounding.app p.1 = p.2.1 ∧
       ((Gen.pointRounding.app p.1 : Int) : Rat) + half = p.2.2 := by decide +kernel
+
+/-- the point constructors of the current tree round by `floor` (after the point fix); if a change brings the
+truncation back, the regenerated table makes this obligation (and the two theorems below) fail. -/
+theorem point_rounding_is_floor : Gen.pointRounding = .floor := by decide
+
+/-- whole-voxel translation ⇒ zero-filled shift for the code as it is now, in ALL three modes (2-D) … -/
+theorem warp_shift_current_2d {β : Type} (zero : β) (mode : Mode) (cs : CS2)
+    (h0 : cs.h0 ≠ 0) (h1 : cs.h1 ≠ 0) (k0 k1 : Int) (arr : Int → Int → β) (v0 v1 : Int)
+    (hv0 : 0 ≤ v0) (hv1 : 0 ≤ v1) :
+    warp2 zero mode (Affine2.mk' (shiftVec2 mode cs k0 k1) 1 1 0) cs cs Gen.pointRounding arr v0 v1
+      = shift2 zero cs.n0 cs.n1 k0 k1 arr v0 v1 :=
+  warp_shift_2d zero _ mode cs h0 h1 k0 k1 arr v0 v1 hv0 hv1 (Or.inl point_rounding_is_floor)
+
+/-- … and in 3-D. -/
+theorem warp_shift_current_3d {β : Type} (zero : β) (mode : Mode) (cs : CS3)
+    (h0 : cs.h0 ≠ 0) (h1 : cs.h1 ≠ 0) (h2 : cs.h2 ≠ 0) (k0 k1 k2 : Int) (arr : Int → Int → Int → β)
+    (v0 v1 v2 : Int) (hv0 : 0 ≤ v0) (hv1 : 0 ≤ v1) (hv2 : 0 ≤ v2) :
+    warp3 zero mode (Affine3.mk' (shiftVec3 mode cs k0 k1 k2) 1 []) cs cs Gen.pointRounding arr v0 v1 v2
+      = shift3 zero cs.n0 cs.n1 cs.n2 k0 k1 k2 arr v0 v1 v2 :=
+  warp_shift_3d zero _ mode cs h0 h1 h2 k0 k1 k2 arr v0 v1 v2 hv0 hv1 hv2 (Or.inl point_rounding_is_floor)
 
 /-! ### metadata -/
 
